@@ -28,10 +28,12 @@ META = {
             "by the release that reads zero) refines the abstract reference-counted object for bounded thread programs; all "
             "interleavings at yield-point granularity of those programs are replayed on the real macros with objects of "
             "test-owned class hierarchies of depth 1..4 (dynamic and statically constructed, levels without destructor), "
-            "including the race of concurrent first PARSEC_OBJ_NEW on the lazy class initialisation, plus free-running stress; "
+            "including the race of concurrent first PARSEC_OBJ_NEW on the lazy class initialisation, plus free-running stress "
+            "(four threads leaving a spin rendezvous together: last references of one object dropped at once, first use of "
+            "one cold class by all threads; 115 000 such executions in quick); "
             "each recorded history (calls and destructor invocations) is validated by TLC against RefTrace.tla: destructors "
             "run exactly once, most derived to base, by the release that drops the last reference, before it returns.",
-    "note": "2-3 threads, <= 5 operations per thread, 1-3 objects; exhaustive interleavings for the small scenarios, sampled for "
+    "note": "2-3 threads (4 in the free-running bursts), <= 5 operations per thread, 1-3 objects (8 in the cold-class burst); exhaustive interleavings for the small scenarios, sampled for "
             "the larger ones. A thread uses an object only through a reference it holds (contract of the object system). "
             "x86-64 TSO; trusted: TLC, vsched, ndjson recorder.",
     "technique": "TLA+ refinement (TLC) + schedule replay on real code + linearizability trace validation (TLC)",
@@ -55,6 +57,16 @@ SCENARIOS = [
     # concurrent first use of the classes: parsec_class_initialize under its lock (explored on the code only)
     {"name": "cold", "cold": True, "pre": [],
      "threads": [["new:1:C3:1", "release:1", "new:4:C2:4", "release:4"], ["new:2:C4:2", "release:2", "new:3:C3:3", "release:3"]]},
+    # concurrent first use of ONE class by four free-running threads (stress only): an object of the class is being
+    # constructed / destructed by the thread that initialised the class while the others are still inside
+    # parsec_class_initialize (plain reads and writes of the constructor / destructor arrays: no yield point there)
+    # the last references of one object dropped by four free-running threads leaving a spin rendezvous together
+    # (stress only: a plain re-read next to the atomic update has no yield point to separate it)
+    {"name": "relrace", "stress_only": True, "pre": ["new:1:C2:1", "retain:1:2", "retain:1:3", "retain:1:4"],
+     "threads": [["take:1", "release:1"], ["take:2", "release:2"], ["take:3", "release:3"], ["take:4", "release:4"]]},
+    {"name": "coldrace", "cold": True, "pre": [],
+     "threads": [["new:1:C4:1", "release:1", "new:5:C4:5", "release:5"], ["new:2:C4:2", "release:2", "new:6:C4:6", "release:6"],
+                 ["new:3:C4:3", "release:3", "new:7:C4:7", "release:7"], ["new:4:C4:4", "release:4", "new:8:C4:8", "release:8"]]},
 ]
 EXPLORE = ("depth1", "share3", "handoff", "kept", "cold")
 STRESS = ("share3", "two", "newthr")
@@ -256,7 +268,7 @@ def run(ctx):
     for k in range(3 if ctx.quick else 12):
         scen.append(random_scenario(ctx.rng, "rnd%d" % k))
     byname = {sc["name"]: sc for sc in scen}
-    modelled = [sc for sc in scen if not sc.get("cold")]
+    modelled = [sc for sc in scen if not sc.get("cold") and not sc.get("stress_only")]
     path_limit = 3000 if ctx.quick else 25000
 
     def account(mod, cfg, r, **kw):
@@ -310,7 +322,7 @@ def run(ctx):
     seen_actions = set()
     for sc in scen:
         info = {"name": sc["name"], "pre": sc["pre"], "threads": sc["threads"]}
-        if not sc.get("cold"):
+        if not sc.get("cold") and not sc.get("stress_only"):
             g = graphs[sc["name"]]
             seen_actions |= set(re.match(r"\w+", lab).group(0) for es in g.edges.values() for lab, _ in es)
             paths, total, exhaustive = tlc.maximal_paths(g, limit=path_limit, rng=ctx.rng)
@@ -341,6 +353,10 @@ def run(ctx):
         raise tlc.TLCError("vacuity guard: actions never taken in any scenario: %s" % sorted(want_actions - seen_actions))
     for name in STRESS:
         collect(ctx, exe, "stress", byname[name], str(200 if ctx.quick else 3000), "stress", executions)
+    # several processes: how closely the threads leave the rendezvous depends on the cores the process got
+    for b in range(5 if ctx.quick else 40):
+        collect(ctx, exe, "stress", byname["coldrace"], "3000", "stress%d" % b, executions, timeout=600)
+        collect(ctx, exe, "stress", byname["relrace"], "20000", "stress%d" % b, executions, timeout=600)
 
     ctx.evaluations = len(executions)
     distinct, mult = tracecheck.dedupe([e for _, _, e in executions])
